@@ -135,12 +135,41 @@ fn cmd_automata() {
     println!("{}", json!({"event": event, "command": command, "utf8": utf8, "hook_event_matcher_names": names}));
 }
 
+/// run the real public decoders over byte strings: {"kind": "command"|"event", "bytes": [...]}
+fn cmd_decode() {
+    use surf_n_term::decoder::{Decoder, TTYCommandDecoder, TTYEventDecoder};
+    let stdin = std::io::stdin();
+    for line in stdin.lock().lines() {
+        let line = line.expect("line");
+        if line.trim().is_empty() {
+            continue;
+        }
+        let req: Value = serde_json::from_str(&line).expect("json");
+        let bytes: Vec<u8> = req["bytes"].as_array().expect("bytes").iter().map(|v| v.as_u64().unwrap() as u8).collect();
+        let mut items = Vec::new();
+        let mut cursor = std::io::Cursor::new(bytes);
+        if req["kind"] == "command" {
+            let mut dec = TTYCommandDecoder::new();
+            while let Ok(Some(item)) = dec.decode(&mut cursor) {
+                items.push(format!("{:?}", item));
+            }
+        } else {
+            let mut dec = TTYEventDecoder::new();
+            while let Ok(Some(item)) = dec.decode(&mut cursor) {
+                items.push(format!("{:?}", item));
+            }
+        }
+        println!("{}", json!({"items": items}));
+    }
+}
+
 fn main() {
     let args: Vec<String> = std::env::args().collect();
     match args.get(1).map(|s| s.as_str()) {
         Some("c15") => cmd_c15(),
         Some("c15-run") => cmd_c15_run(),
         Some("automata") => cmd_automata(),
+        Some("decode") => cmd_decode(),
         _ => {
             eprintln!("usage: tablegen c15|c15-run|automata");
             std::process::exit(2);
